@@ -892,6 +892,13 @@ class E3(object):
             return [self.mk_slc(w2, tag, rl, ci)]
         if p == 'core::str::<impl str>::get' and len(args) == 2:
             w3, sv = self.mk_slc(w, 'sub', None, ci)
+            ln = self.slc_len(I, w, args[0])
+            if args[1][0] == 'adt' and args[1][1].rsplit('::', 1)[-1] == 'RangeFrom' and ln is not None and L(ln) is not None \
+                    and L(sv[2]) is not None and L(args[1][3][0]) is not None:
+                # Some(text[s..]) only when s <= len(text); its length is len(text) - s
+                s_ = L(args[1][3][0])
+                tot = fm.add(L(sv[2]), s_)
+                w3 = self.add(w3, fm.le(s_, L(ln)), fm.le(tot, L(ln)), fm.le(L(ln), tot))
             return [(w, none()), (w3, some(sv))]
         # ---- iteration
         if p in ('core::slice::<impl [T]>::iter', 'core::str::<impl str>::bytes') or (name == 'into_iter' and args and args[0][0] in ('slc', 'cstr')):
